@@ -147,6 +147,9 @@ var stringAlphabets = []string{
 // String draws empty, ASCII, multi-byte UTF-8 and invalid UTF-8 strings with Len-distributed byte length.
 func String(big bool) *rapid.Generator[string] {
 	return rapid.Custom(func(t *rapid.T) string {
+		if rapid.IntRange(0, 11).Draw(t, "twin") == 0 {
+			return rapid.SampledFrom(HashTwins[:8]).Draw(t, "hashtwin") // different strings with the same 32-bit hash
+		}
 		n := Len(big).Draw(t, "slen")
 		if n == 0 {
 			return ""
